@@ -2635,7 +2635,9 @@ func rulePXImportBlock(c *Ctx) []Obligation {
 	imp := "recv." + c.ff("imports")
 	nameF, aliasF := c.ff("defname"), c.ff("defalias")
 	// the block is written to a writer parameter, or assembled in a local buffer and returned as text
-	textForm := c.writerParam(f) == nil
+	// … or written through a context object that holds the buffer (and possibly a sticky error)
+	ctxForm := c.writerParam(f) == nil && f.Signature.Params().Len() == 1 && ctxStructParam(f.Signature.Params().At(0).Type())
+	textForm := c.writerParam(f) == nil && !ctxForm
 	paths, trunc := c.Paths(f, PXConfig{SkipErrEdges: true, Opaque: c.stdOpaque(), MaxVisits: 4, MaxPaths: 60000, LocalWrites: textForm})
 	if trunc || len(paths) == 0 {
 		o.undecided(fn, "path enumeration", f.Pos(), "%d paths, truncated %v", len(paths), trunc)
@@ -2653,8 +2655,8 @@ func rulePXImportBlock(c *Ctx) []Obligation {
 			// the one local buffer whose text is what the function returns
 			W = ""
 			for _, e := range p.Events {
-				if e.Kind == "write" && e.Writer.Op == "alloc" {
-					if txt, ok := p.Mem["o"+strconv.Itoa(e.Writer.Obj)+"$text"]; ok && len(p.Ret) > 0 && txt.String() == p.Ret[0].String() {
+				if wk, isBuf := privBufKey(e.Writer); e.Kind == "write" && isBuf {
+					if txt, ok := p.Mem[wk]; ok && len(p.Ret) > 0 && txt.String() == p.Ret[0].String() {
 						W = e.Writer.String()
 					}
 				}
@@ -2669,6 +2671,20 @@ func rulePXImportBlock(c *Ctx) []Obligation {
 			if W == "" {
 				t.note("the text returned is exactly what was assembled", false, "path %s returns %v", traceOf(p), p.Ret)
 				continue
+			}
+		}
+		if ctxForm {
+			// the writer is whatever part of the context object the writes of this path go to
+			W = ""
+			for _, e := range p.Events {
+				if e.Kind == "write" && (e.Writer.String() == "p0" || strings.HasPrefix(e.Writer.String(), "&p0.") || strings.HasPrefix(e.Writer.String(), "p0.")) {
+					if W == "" {
+						W = e.Writer.String()
+					}
+				}
+			}
+			if W == "" {
+				W = "<none>"
 			}
 		}
 		if !successPath(p) {
@@ -2721,6 +2737,8 @@ func rulePXImportBlock(c *Ctx) []Obligation {
 				stream = append(stream, "⟦render|"+c.commentSource(d)+"⟧")
 			case e.Kind == "call" && e.Fn == c.registerFn():
 				t.note("printing the import block registers nothing", false, "path %s calls the registration function", traceOf(p))
+			case ctxForm && e.Kind == "store" && e.Recv != nil && (strings.HasPrefix(e.Recv.String(), "&p0.") || strings.HasPrefix(e.Recv.String(), "p0.")):
+				// bookkeeping inside the context object the caller handed in (its sticky error)
 			case e.Kind == "mapupdate" || e.Kind == "store":
 				t.note("printing the import block changes nothing", false, "path %s stores to %s", traceOf(p), e.Recv)
 			}
